@@ -340,6 +340,16 @@ fn exercise(run: &mut Run, case: &Case, layer: &Layer) -> Option<Vec<Histogram>>
                     }
                 }
             }
+            // every stored entry is a finite number in [0, 1]; all 0 when every distance is 0
+            run.spec_checked += 1;
+            if let Some((p, d)) = es.iter().find(|e| !(e.1.is_finite() && e.1 >= 0.0 && e.1 <= 1.0)) {
+                run.fail("metric-entry-not-finite-in-unit-interval", &format!("{short}, key {}", i64::from(*p) as u64), "a finite value in [0, 1]", &format!("{d}"));
+            }
+            if mx == 0.0 {
+                if let Some((p, d)) = es.iter().find(|e| e.1.to_bits() != 0f32.to_bits() && e.1 != 0.0 || e.1.is_nan()) {
+                    run.fail("metric-all-zero-distances-not-stored-as-zero", &format!("{short}, key {}", i64::from(*p) as u64), "0 (all centroid distances are 0)", &format!("{d}"));
+                }
+            }
             if kc >= 2 && !((seen_max - 1.0).abs() < 1e-6 || (mx == 0.0 && seen_max == 0.0)) {
                 run.fail("metric-not-scaled-to-one", &short, "max 1 (or all 0)", &format!("{seen_max}"));
             }
@@ -541,7 +551,7 @@ fn projection_suite(run: &mut Run, deep: bool) {
         run.distinct(&(op.len(), round));
         run.spec_checked += 1;
         if points.len() != truth.len() {
-            run.fail("projection-count", "the preflop layer end to end through Table (Layer::grow(Pref).save() on a synthetic flop lookup + metric in ./pgcopy; labels, stored centroids and metric read back and judged against independently computed class histograms); Lookup::projections on a complete flop lookup", &format!("{} points", truth.len()), &format!("{}", points.len()));
+            run.fail("projection-count", "degenerate metrics through Layer::metric / Metric::from (all centroids identical, K = 2 identical, two groups of identical centroids, same shape at different sample counts, single-bucket learned centroids; all-zero maps); the preflop layer end to end through Table (Layer::grow(Pref).save() on a synthetic flop lookup + metric in ./pgcopy; labels, stored centroids and metric read back and judged against independently computed class histograms); Lookup::projections on a complete flop lookup", &format!("{} points", truth.len()), &format!("{}", points.len()));
         }
         let mut misplaced = vec![];
         for (i, (p, t)) in points.iter().zip(truth.iter()).enumerate() {
@@ -884,9 +894,56 @@ fn main() {
             cases.push(Case { street: Street::Turn, metric_raw: BTreeMap::new(), points, kmeans, tag: "Turn+near-tie-point-mass".into(), vdist: true });
         }
     }
+
+    // ---- degenerate metrics through the real Layer::metric / Metric::from: every pairwise distance 0, K = 2 with
+    // identical centroids, two groups of identical centroids (zero and positive entries), the same shape at
+    // different sample counts, single-bucket learned histograms
+    {
+        let shape = |scale: usize| -> Histogram {
+            let sup: Vec<Abstraction> = [20usize, 21, 22, 40].iter().map(|&b| river[b]).collect();
+            let mut v = vec![];
+            for (a, c) in sup.iter().zip([5usize, 3, 2, 1].iter()) { for _ in 0..c * scale { v.push(*a); } }
+            Histogram::from(v)
+        };
+        let other = gen_hist(&mut rng, &river, 70, 5, 46);
+        let some_points: Vec<Histogram> = (0..12).map(|i| gen_hist(&mut rng, &river, 10 + 7 * i, 4, 46)).collect();
+        let mut push = |tag: &str, points: Vec<Histogram>, kmeans: Vec<Histogram>| {
+            cases.push(Case { street: Street::Turn, metric_raw: BTreeMap::new(), points, kmeans, tag: format!("Turn+{tag}"), vdist: false });
+        };
+        push("all-centroids-identical", some_points.clone(), vec![shape(1); 5]);
+        push("two-identical-centroids", some_points.clone(), vec![shape(1); 2]);
+        push("same-shape-different-sample-counts", some_points.clone(), vec![shape(1), shape(2), shape(4), shape(46)]);
+        push("two-groups-of-identical-centroids", some_points.clone(), vec![shape(1), other.clone(), shape(1), other.clone(), shape(3)]);
+        push("all-points-identical", vec![shape(1); 14], vec![shape(1); 3]);
+        // learned: single-bucket histograms on the same bucket (Sinkhorn cost exactly 0), and two groups
+        let sub: Vec<Abstraction> = turn_abs[..24].to_vec();
+        let m = line_metric(&mut rng, &sub);
+        let single = |b: usize, c: usize| Histogram::from(vec![turn_abs[b]; c]);
+        let lp: Vec<Histogram> = (0..10).map(|i| gen_hist(&mut rng, &turn_abs[..24], 2 * i, 2, 20)).collect();
+        cases.push(Case { street: Street::Flop, metric_raw: m.clone(), points: lp.clone(), kmeans: vec![single(3, 10), single(3, 25), single(3, 1)], tag: "Flop+single-bucket-identical-centroids".into(), vdist: false });
+        cases.push(Case { street: Street::Flop, metric_raw: m.clone(), points: lp.clone(), kmeans: vec![single(3, 10), single(17, 10), single(3, 7), single(17, 2)], tag: "Flop+two-groups-of-single-bucket-centroids".into(), vdist: false });
+        cases.push(Case { street: Street::Flop, metric_raw: m, points: lp, kmeans: vec![single(5, 4), single(5, 4)], tag: "Flop+two-identical-centroids".into(), vdist: false });
+    }
     for case in &cases {
         let layer = layer_of(case);
         exercise(&mut run, case, &layer);
+    }
+    // ---- Metric::from directly: all values 0, one positive among zeros, a single pair of value 0
+    for (name, vals) in [("all-zero", vec![0f32; 6]), ("one-positive", vec![0.0, 0.0, 2.5, 0.0, 0.0, 0.0]), ("single-zero-pair", vec![0f32])] {
+        let k = if vals.len() == 1 { 2 } else { 4 };
+        let mut map = BTreeMap::new();
+        let mut it = vals.iter();
+        for i in 0..k { for j in 0..i { map.insert(Pair::from((&turn_abs[i], &turn_abs[j])), *it.next().unwrap()); } }
+        let m = Metric::from(map);
+        run.evaluations += 1;
+        run.spec_checked += 1;
+        let es = m.verif_entries();
+        let positive = vals.iter().any(|v| *v > 0.0);
+        let mx = es.iter().map(|e| e.1).fold(0f32, f32::max);
+        if es.len() != vals.len() || es.iter().any(|e| !(e.1.is_finite() && e.1 >= 0.0 && e.1 <= 1.0)) || (positive && mx != 1.0) || (!positive && es.iter().any(|e| e.1 != 0.0)) {
+            run.fail("metric-from-degenerate", &format!("Metric::from({name}: {vals:?})"), "finite entries in [0,1], max 1 if some value is positive, all 0 otherwise", &format!("{:?}", es.iter().map(|e| e.1).collect::<Vec<_>>()));
+        }
+        run.count("metric-from-degenerate");
     }
     multistep_suite(&mut run, &mut rng, deep);
     populous_suite(&mut run, &mut rng, deep);
